@@ -40,8 +40,21 @@ type ChildResult struct {
 var progress atomic.Int64
 
 // RunCaseGuarded runs one case and turns an escaped panic into a violation.
+// BeforeCase / AfterCase, when set, run around every case (harness-wide per-case settings derived from the case number,
+// process-wide detectors).
+var (
+	BeforeCase func(c *Ctx, m *Monitor, idx int)
+	AfterCase  func(c *Ctx, m *Monitor, idx int)
+)
+
 func RunCaseGuarded(m *Monitor, c *Ctx, idx int) {
 	c.Begin(idx)
+	if BeforeCase != nil {
+		BeforeCase(c, m, idx)
+	}
+	if AfterCase != nil {
+		defer AfterCase(c, m, idx)
+	}
 	defer func() {
 		if r := recover(); r != nil {
 			st := string(debug.Stack())
